@@ -14,7 +14,7 @@ def register(qual):
 
 def find(qual):
     for m in ('adapters_watcher', 'adapters_util', 'adapters_stream', 'adapters_misc',
-              'adapters_ctl', 'adapters_arbiter', 'adapters_signal', 'adapters_options', 'adapters_manage', 'adapters_pidfile', 'adapters_redirector', 'adapters_format', 'adapters_procwrap'):
+              'adapters_ctl', 'adapters_arbiter', 'adapters_signal', 'adapters_options', 'adapters_manage', 'adapters_pidfile', 'adapters_redirector', 'adapters_format', 'adapters_procwrap', 'adapters_sockets'):
         try:
             importlib.import_module('replay.' + m)
         except ImportError as e:
